@@ -201,6 +201,9 @@ struct CustomOut {
 void h_custom(long worker, long workers, long seed, std::map<std::string, std::string> &params, CustomOut &o)
 	__attribute__((weak));
 
+// provided by core/engine.cpp (absent in the libFuzzer build): see there
+uint32_t *engine_custom_case(size_t n, const char *extra_params) __attribute__((weak));
+
 // every harness defines these two
 extern const char *H_NAME;
 void h_run(Ctx &c);
